@@ -569,10 +569,10 @@ func (x *fnv) collectWrites(n ast.Node, w *writeSet) {
 			if x.fc != nil {
 				name := types.ExprString(nd.Fun)
 				for _, at := range x.fc.Ats {
-					if at.Kind == "gadd" && at.Callee == name {
+					if at.Kind == "gadd" && atMatches(at.Callee, name) {
 						w.regions["GHOST|"+at.Ghost] = true
 					}
-					if at.Kind == "ghost" && at.Callee == name {
+					if at.Kind == "ghost" && atMatches(at.Callee, name) {
 						if w.ghosts == nil {
 							w.ghosts = map[string]bool{}
 						}
